@@ -271,9 +271,26 @@ def clause_keyring(prog, rep):
                       "when the file already existed no key is generated or stored (a missing keyring entry is an error)",
                       "the AlreadyExisted branch can generate / store a new key (%s): an existing encrypted database would be re-keyed or become unreadable" % [c.name for c in bad], f.loc())
         # AlreadyExisted + no key + plain file => dedicated error
-        rep.check(any(True for _ in f.aggregates("Error", "UnencryptedDatabaseWithEncryption")) and any(True for _ in f.aggregates("Error", "KeyringEntryMissingForExistingDatabase")),
+        import predicates as _P
+        fam = _P.family(prog, f)
+        rep.check(any(True for g in fam for _ in g.aggregates("Error", "UnencryptedDatabaseWithEncryption"))
+                  and any(True for g in fam for _ in g.aggregates("Error", "KeyringEntryMissingForExistingDatabase")),
                   "keyring", "existing-file-errors", "missing entry for an existing file is refused (plain file and encrypted file told apart)",
                   "the existing-file errors are no longer produced", f.loc())
+        # the keyring is consulted before the file's header: a concurrent first opener has created the (still empty) file and stored the
+        # key; looking at the header first takes the empty file for a plain database and refuses, although the key to use is there
+        encs = [c for c in f.live_calls() if any(t.name == "is_database_encrypted" for t in prog.call_targets(c))]
+        gets_f = [c for c in f.live_calls() if any(t.name == "get_db_key" for t in prog.call_targets(c))]
+        for w, arm in arms:
+            for e in encs:
+                if e.bb not in f.reachable_from(arm):
+                    continue
+                gb = frozenset(g.bb for g in gets_f)
+                rep.check(bool(gets_f) and (arm in gb or e.bb not in A.reach_without_edges(f, arm, set(), gb)),
+                          "keyring", "existing-file/keyring-before-header",
+                          "for a file that already existed the keyring lookup precedes the look at the file's header",
+                          "for a file that already existed the header is inspected before the keyring is consulted: an empty file just created by a "
+                          "concurrent opener (its key already stored) is taken for a plain database and refused", e.loc())
     # opening a database never deletes a keyring entry ("created once and reused")
     dele = A.ReachCache(prog, lambda c: c.name in ("delete_credential", "delete_password", "delete_secret") or
                         any(t.name == "delete_db_key" for t in prog.call_targets(c)))
